@@ -14,6 +14,12 @@ claimed={
  "C06":dict(text="Escaper tables read from the replacers' initialisers and proved equal to the statement's escape function for every rune; ScanString's loop proved to implement the spec scan step on a ghost rune stream (kind, rune appended, runes consumed); SMT lemmas over all runes: scan step inverts the escape, escaped text can never terminate or break the literal, consumes exactly the escape; character classes equal the README classes; QuoteString wraps the replaced text in quotes.",
    undecided=["sequence-level statement ScanString(QuoteString(s)) == s is the induction over the per-rune lemmas (paper)","IdentNeedsQuotes equivalence with the bare scan, QuoteIdent segment rule, scanIdent: not yet under contract","strings.Replacer with single-ASCII-byte patterns rewrites rune by rune (trusted)"],
    design="DESIGN.md §3 C06"),
+ "C04":dict(text="Zero-annotation safety sweep (nil dereference, index, slice, type assertion, division, explicit panic, nil-map write) plus generated contracts over all 81 Parser methods, the 41 statement-handler closures of the dispatch tree (function-type contract), ParseTree.Parse, the scanner and both ring buffers: pushback depth never exceeds the 3-slot token ring or rune ring at any Unscan/unread call site (bounds fitted by a script, every one verified), every parse function returns either an error or a non-nil, freshly allocated result, writes only memory it allocated plus its own parser/scanner/reader state (frame), and leaves the rings well-formed; SetParams/BindValue/bindObjectValue total and never store a nil value.",
+   undecided=["10 generated obligations are listed as UNPROVED in evidence.assumptions (assumed, never counted): the ParseExpr tree invariant (5), the 'unexpected literal' panic of parseUnaryExpr (1), argument well-formedness carried through ParseExpr for parseFill/parseLocation (4)","running time proportional to input length, termination of the parser loops and goroutine stack depth are not decided by contracts","a returned result can be printed and traversed without panicking: see C13 (AST invariant is assumed there, only partly established here)","statement handlers registered by users of the exported Language variable are assumed to satisfy the handler contract"],
+   design="DESIGN.md §3 C04"),
+ "C07":dict(text="Parser.scan is the only place where substitution happens and it is a function of the raw token and the parameter map only: token position always comes from the scanner, non-placeholder tokens pass unchanged, parser state and the map are untouched; the value -> (token kind, literal) table of all eight Value kinds equals the statement's table; BindValue/bindObjectValue never return nil and SetParams stores only their results (map invariant: no nil value), which makes the TokenType/Value calls in scan safe; the token ring replays exactly the stored raw token on every re-scan after pushback (bufScanner.scanFunc/Unscan/curr contracts).",
+   undecided=["equality of the resulting AST with the parse of the inlined text, for every template, needs grammar-level reasoning (C01) and is not claimed","placeholder nodes carrying exactly the bound value (parseUnaryExpr literal cases) and the BOUNDPARAM error case are not yet under contract","implementations of the Value interface outside the package are assumed pure"],
+   design="DESIGN.md §3 C07"),
  "C05":dict(text="reader.read/unread/curr proved against a ghost rune stream under the underlying io.RuneScanner: CR and CRLF folding, end of input counted once, the position recurrence of the statement (line break -> (line+1,0), otherwise one column), ring-buffer replay returns exactly the stored (rune, position) pairs and touches neither the input nor the position; every Scanner function (Scan, scanWhitespace, scanIdent, scanString, scanNumber, scanDigits, ScanRegex, comment skipping, ScanString/ScanBareIdent/ScanDelimited through the io.RuneScanner interface with modular dynamic dispatch) keeps the 3-slot ring within bounds (pushback depth <= 3 for all inputs) and returns as token position the position of the next rune to be delivered.",
    undecided=["token extents / tiling (literal text of each token equals the runes consumed) and termination of the scanner loops are not under contract","*reader used through io.RuneScanner is assumed to behave as a rune stream (ReadRune = read, UnreadRune = unread)","input without NUL runes (property's own restriction) is a pre-condition of Scan","position increments are stated modulo 2^64","known finding F-C05-1: STRING/BADSTRING start one column early"],
    design="DESIGN.md §3 C05"),
